@@ -333,12 +333,14 @@ def cli_matrix(tier):
             'calc_fail': WL.GEO_BASE + 'Gradient 1, 2\nReservoir Depth, 0.5\n',
             'bare_sys_exit': WL.GEO_BASE + 'Reservoir Model, 5\nReservoir Output File Name, /nonexistent/profile.txt\n',
             'missing': None,
+            # relative output-file *parameters* (not the command-line argument) are resolved against the starting directory
+            'ok_html': WL.GEO_BASE + 'HTML Output File, web out/report.html\n',
         }
         forms = histsim.OUT_FORMS
         cwds = ['plain', 'with space', 'deep/a/b']
         cid = 0
         for rk in reqs:
-            for form in (forms if rk == 'ok' else ['absent', 'rel', 'abs']):
+            for form in (forms if rk == 'ok' else ['rel', 'abs'] if rk == 'ok_html' else ['absent', 'rel', 'abs']):
                 for cw in (cwds if rk == 'ok' and tier == 'thorough' else cwds[:2] if rk == 'ok' else cwds[:1]):
                     cid += 1
                     cases.append({'id': cid, 'req': rk, 'out': form, 'cwd': cw})
@@ -348,6 +350,8 @@ def cli_matrix(tier):
             cwd = os.path.join(d, c['cwd'])
             os.makedirs(cwd)
             os.makedirs(os.path.join(d, 'in put'))
+            if c['req'] == 'ok_html':
+                os.makedirs(os.path.join(cwd, 'web out'))
             os.makedirs(os.path.join(d, 'abs out'))
             inp = os.path.join(d, 'in put', 'request.txt')
             if reqs[c['req']] is not None:
@@ -392,6 +396,18 @@ def cli_matrix(tier):
         def V(c, cls, cause, detail):
             viols.append({'property': 'C20', 'cls': cls, 'cause': cause, 'detail': f"python -m geophires_x, request={c['req']}, out={c['out']}, cwd={c['cwd']!r}: {detail}", 'case': c})
         for c, o in zip(cases, results):
+            if c['req'] == 'ok_html':
+                want = os.path.join(c['cwd'], 'web out', 'report.html')
+                if o['rc'] != 0:
+                    V(c, 'exit_status', 'cli_html_parameter', f"exit status {o['rc']}; stderr ...{o['stderr'][-160:]!r}")
+                elif want not in o['new']:
+                    V(c, 'wrong_output_path', 'html_output_parameter',
+                      f"'HTML Output File, web out/report.html' did not produce {want}; new files {[x for x in o['new'] if x.endswith('.html')][:3]}")
+                stray = [x for x in o['new'] if x not in (o['full'], o['jp']) and not x.startswith(os.path.join(c['cwd'], 'web out') + os.sep)
+                         and not x.startswith('geophires') and '__pycache__' not in x and not x.startswith('home/.')]
+                if stray:
+                    V(c, 'stray_file', 'cli_html_parameter', f'unexpected new files {stray[:4]}')
+                continue
             if c['req'] == 'ok':
                 if o['rc'] != 0:
                     V(c, 'exit_status', f"cli_{c['out']}", f"exit status {o['rc']} for a succeeding run; stderr ...{o['stderr'][-160:]!r}")
